@@ -128,6 +128,12 @@ func (r *runner) run(c *fedlab.Case, key string) (*fedlab.Verdict, error) {
 		}}
 	}
 	v := fedlab.Check(lab, c.Op.Text(), c.Op.Name, []byte(c.Op.VariablesJSON()), ro)
+	if os.Getenv("C01_VALIDATE") != "" && v.LabError == "" {
+		// generator self-check: every generated operation must pass the repo's own normaliser + validator
+		if err := lab.Validate(c.Op.Text()); err != nil {
+			v.LabError = "generated operation rejected by the validator: " + fedlab.Trunc(err.Error(), 300)
+		}
+	}
 	diagnose(c, lab, v)
 	return v, nil
 }
@@ -136,6 +142,19 @@ func (r *runner) run(c *fedlab.Case, key string) (*fedlab.Verdict, error) {
 // position of the first difference, the type-condition combinations the operation selects that position under,
 // and the fields (with their type conditions) the post-processed response plan holds for it.
 func diagnose(c *fedlab.Case, lab *fedlab.Lab, v *fedlab.Verdict) {
+	if v.Panicked && strings.HasPrefix(v.PlanError, "panic in Execute") && !strings.Contains(v.PlanError, "| frames: ") {
+		// the innermost frames of the library, so that a panic can be classified by where it happened
+		var frames []string
+		for _, m := range repoFrameRE.FindAllStringSubmatch(v.PlanError, -1) {
+			if frames = append(frames, m[1]); len(frames) == 4 {
+				break
+			}
+		}
+		if k := strings.Index(v.PlanError, " | "); k > 0 {
+			v.PlanError = v.PlanError[:k] + " | frames: " + strings.Join(frames, " <- ") + v.PlanError[k:]
+		}
+		return
+	}
 	if v.LabError != "" || !v.PlanningOK || v.DataEqual || v.Gateway == nil || v.Ref == nil {
 		return
 	}
@@ -152,9 +171,26 @@ func diagnose(c *fedlab.Case, lab *fedlab.Lab, v *fedlab.Verdict) {
 	// planner-made upstream aliases (abstract_selection_field_alias.go) of a response key on the way to the position
 	var aliases []string
 	seen := map[string]bool{}
+	// a non-null violation below the position nulls the position itself: the keys of such error paths count too
+	keys := append([]string(nil), pos...)
+	if v.Gateway.Errors != nil {
+		for _, e := range v.Gateway.Errors.Items {
+			if p := e.Get("path"); p != nil && p.Kind == fedlab.JArr {
+				var ks []string
+				for _, x := range p.Items {
+					if x.Kind == fedlab.JStr {
+						ks = append(ks, x.Raw)
+					}
+				}
+				if len(ks) > len(pos) && strings.Join(ks[:len(pos)], ".") == strings.Join(pos, ".") {
+					keys = append(keys, ks[len(pos):]...)
+				}
+			}
+		}
+	}
 	for _, q := range v.Gateway.Requests {
 		for _, a := range mergeAliasRE.FindAllString(q.Query, -1) {
-			for _, key := range pos {
+			for _, key := range keys {
 				if strings.HasSuffix(a, "_"+key) && !seen[a] {
 					seen[a] = true
 					aliases = append(aliases, a)
@@ -166,6 +202,7 @@ func diagnose(c *fedlab.Case, lab *fedlab.Lab, v *fedlab.Verdict) {
 		strings.Join(pos, "."), len(combos), strings.Join(combos, " , "), pf, strings.Join(aliases, ","))
 }
 
+var repoFrameRE = regexp.MustCompile(`github\.com/wundergraph/graphql-go-tools/(?:v2|execution)/(pkg/[\w/]+\.[\w.()*\[\]]+)\(`)
 var mergeAliasRE = regexp.MustCompile(`__internal_merge_\w+`)
 
 // ---------------------------------------------------------------- replay files
@@ -670,6 +707,8 @@ func main() {
 		cmdProbe(a)
 	case "dump":
 		cmdDump(a)
+	case "handmade":
+		cmdHandmade(a)
 	default:
 		fmt.Println("unknown command")
 		os.Exit(2)
